@@ -165,7 +165,22 @@ pub fn run(ctx: &Ctx) -> i32 {
         scfg.max_nb_chunks = *rng.pick(&[1usize, 1, 2, 3, 5, 8, 30]);
         scfg.budget = *rng.pick(&[1024usize, 2048, 4096, 16_384, 65_536]);
         // initial capacity never above the budget (as with the real constants)
-        scfg.initial = if scfg.allow_realloc { Some(*rng.pick(&[16usize, 64, scfg.budget / 8, scfg.budget])) } else { None };
+        scfg.initial = if scfg.allow_realloc {
+            Some(match rng.below(6) {
+                0 => 16,
+                1 => 64,
+                2 => scfg.budget / 8,
+                3 => scfg.budget,
+                // capacities whose doubling sequence overshoots the budget by 2..24 % (the budget
+                // is then not on a doubling step, as with dump_threshold(16_000_000))
+                _ => {
+                    let over = scfg.budget + scfg.budget * rng.range(2, 24) / 100;
+                    (over >> rng.range(1, 5)).max(16)
+                }
+            })
+        } else {
+            None
+        };
         // cheap chunk files: the property is about volume, not format
         scfg.codec = Some(*rng.pick(&[grenad::CompressionType::None, grenad::CompressionType::None, grenad::CompressionType::Snappy]));
         scfg.levels = Some(0);
@@ -181,7 +196,8 @@ pub fn run(ctx: &Ctx) -> i32 {
     let n = ctx.n(6, 60);
     let big = ctx.tier == Tier::Thorough;
     ctx.par("real-threshold", n, true, |idx, rng| {
-        let requested = *rng.pick(&[0usize, 1024, 10 * 1024 * 1024, 16 * 1024 * 1024]);
+        // budgets on and off the 128 KiB x 2^n doubling steps of the buffer
+        let requested = *rng.pick(&[0usize, 1024, 10 * 1024 * 1024, 16 * 1024 * 1024, 12_000_000, 16_000_000, 20_000_000]);
         let scfg = SCfg {
             budget: requested,
             raw: false,
